@@ -303,6 +303,23 @@ def corpus_check(run: core.Run) -> None:
             pass
     except Exception as exc:
         raise core.MachineryError(f"valid sweep rejected: {exc}")
+    # the context KEY of a from_context variable is not a sweep variable: an expression naming it must be rejected
+    def ctx_sweep(expr):
+        return [{"processor": "VPairSource", "derive": {"parameter_sweep": {"parameters": {"a": expr},
+                 "variables": {"t": {"from_context": "ts"}, "u": {"values": [1.0]}}, "collection": "FloatDataCollection"}}}]
+    try:
+        Pipeline(ctx_sweep("t + u"))
+        run.evaluations += 1
+    except Exception as exc:
+        raise core.MachineryError(f"valid from_context sweep rejected: {exc}")
+    for expr in ("t / max(ts)", "ts", "u + ts[0]" if False else "(t, ts)", "abs(ts) + t"):
+        run.evaluations += 1
+        try:
+            Pipeline(ctx_sweep(expr))
+            run.violation("accepted-forbidden:sweep-factory:from-context-key", f"{expr!r} names the context key 'ts' of a from_context variable "
+                          "(the sweep variable is 't'); a parameter_sweep with this expression was built", {"expr": expr})
+        except Exception:
+            pass
     # builtins must not be reachable from an evaluated expression's globals
     from semantiva.utils.safe_eval import ExpressionEvaluator
     ev = ExpressionEvaluator()
